@@ -157,23 +157,41 @@ func modusPonens(pc []string) []string {
 			}
 		}
 	}
-	parsed := make([]*sx, len(pc))
 	any := false
-	for i, p := range pc {
-		if !strings.Contains(p, "(forall ") {
-			continue // only quantified antecedents are worth the trouble (the others the solver matches itself)
-		}
-		if t, err := parseSx(p); err == nil {
-			parsed[i] = t
-			if t.head() == "=>" {
-				any = true
-			} else {
-				note(t)
-			}
+	for _, p := range pc {
+		if strings.Contains(p, "(forall ") && strings.Contains(p, "(=> ") {
+			any = true // only implications with quantified antecedents are worth the trouble
 		}
 	}
 	if !any {
 		return pc
+	}
+	// split top-level conjunctions that contain such implications into their conjuncts
+	var flat []string
+	for _, p := range pc {
+		if strings.HasPrefix(p, "(and ") && strings.Contains(p, "(forall ") && strings.Contains(p, "(=> ") && len(p) <= 20000 {
+			if t, err := parseSx(p); err == nil && t.head() == "and" {
+				for _, c := range t.list[1:] {
+					flat = append(flat, c.String())
+				}
+				continue
+			}
+		}
+		flat = append(flat, p)
+	}
+	pc = flat
+	parsed := make([]*sx, len(pc))
+	for i, p := range pc {
+		if len(p) > 20000 {
+			continue
+		}
+		if t, err := parseSx(p); err == nil {
+			if t.head() == "=>" && strings.Contains(p, "(forall ") {
+				parsed[i] = t
+			} else {
+				note(t) // quantifier-free facts count as known conjuncts of an antecedent as well
+			}
+		}
 	}
 	var holds func(t *sx) bool
 	holds = func(t *sx) bool {
